@@ -304,8 +304,8 @@ fn straggler_exec(n: &usize, ctx: &WorkerCtx) -> ExecResult {
 /// The peer stops reading while one caller's oversized request is being written (it holds the connection); a second
 /// caller with a short timeout queues behind it; time passes; the peer reads again but never answers. Both calls must
 /// return (timeout) and nothing may stay registered.
-fn stalled_rpc_exec(mib: &usize, ctx: &WorkerCtx) -> ExecResult {
-    let mib = *mib;
+fn stalled_rpc_exec(case: &(usize, bool), ctx: &WorkerCtx) -> ExecResult {
+    let (mib, wrapper) = *case;
     run_rt(async move {
         let mut res = ExecResult::default();
         let mut nw = match node_world(ctx, flags_default()).await {
@@ -318,7 +318,9 @@ fn stalled_rpc_exec(mib: &usize, ctx: &WorkerCtx) -> ExecResult {
         for (k, size, secs) in [(1usize, mib << 20, 30u64), (2, 16, 2)] {
             let (node, results_t) = (nw.node.clone(), results.clone());
             tokio::spawn(async move {
-                let r = node.rpc_call_raw_with_timeout(PEER_NAME, "m", "f", vec![OwnedTerm::Integer(k as i64), OwnedTerm::Binary(vec![k as u8; size])], Duration::from_secs(secs)).await;
+                let args = vec![OwnedTerm::Integer(k as i64), OwnedTerm::Binary(vec![k as u8; size])];
+                // the second caller goes through the public wrapper when asked to (the wrapper adds the rex unwrapping)
+                let r = if wrapper && k == 2 { node.rpc_call_with_timeout(PEER_NAME, "m", "f", args, Duration::from_secs(secs)).await } else { node.rpc_call_raw_with_timeout(PEER_NAME, "m", "f", args, Duration::from_secs(secs)).await };
                 let cr = match r { Ok(v) => CallResult::Ok(format!("{:?}", v)), Err(edp_node::Error::RpcTimeout(_)) => CallResult::Timeout, Err(edp_node::Error::RpcCancelled) => CallResult::Cancelled, Err(e) => CallResult::Other(e.to_string()) };
                 results_t.lock().unwrap().push((k, cr));
             });
@@ -333,7 +335,7 @@ fn stalled_rpc_exec(mib: &usize, ctx: &WorkerCtx) -> ExecResult {
             if results.lock().unwrap().len() == 2 { break; }
         }
         let done = results.lock().unwrap().clone();
-        let detail = json!({"request_mib": mib, "returned": done.iter().map(|(k, r)| format!("call {}: {:?}", k, r)).collect::<Vec<_>>(), "pending_after": nw.node.pending_rpc_count()});
+        let detail = json!({"request_mib": mib, "second_caller_entry_point": if wrapper { "rpc_call_with_timeout" } else { "rpc_call_raw_with_timeout" }, "returned": done.iter().map(|(k, r)| format!("call {}: {:?}", k, r)).collect::<Vec<_>>(), "pending_after": nw.node.pending_rpc_count()});
         if done.len() != 2 { res.violations.push(("a call never returned although the peer resumed reading and its timeout passed".into(), detail.clone())); }
         if done.iter().any(|(_, r)| matches!(r, CallResult::Ok(_))) { res.violations.push(("a call returned a reply although the peer sent none".into(), detail.clone())); }
         if done.len() == 2 && nw.node.pending_rpc_count() != 0 { res.violations.push(("bookkeeping remains after every call has returned".into(), detail.clone())); }
@@ -355,7 +357,7 @@ pub fn run(rep: &Report) -> Value {
     }
     let lens: Vec<usize> = if thorough { vec![70, 300] } else { vec![70] };
     let st_s = crate::explore::for_all(rep, "late reply of a finished call re-sent before each later reply", &lens, |n, ctx| straggler_exec(n, ctx));
-    let sizes = vec![24usize];
+    let sizes = vec![(24usize, false), (24, true)];
     let st_st = crate::explore::for_all(rep, "peer stops reading under an oversized request, second caller queued behind it", &sizes, |n, ctx| stalled_rpc_exec(n, ctx));
     let states: u64 = all.iter().map(|(_, s)| s.executions).sum::<u64>() + st_s.executions + st_st.executions;
     let transitions: u64 = all.iter().map(|(_, s)| s.transitions).sum::<u64>() + st_s.transitions;
@@ -369,6 +371,6 @@ pub fn run(rep: &Report) -> Value {
         "exhaustive": all.iter().all(|(_, s)| s.exhaustive),
         "scenarios": all.iter().map(|(n, s)| json!({"scenario": n, "executions": s.executions, "deviation_bound_completed": s.bound_completed, "distinct_outcomes": s.distinct_outcomes, "outcomes": s.outcomes, "max_decision_points": s.max_points, "unstable_failures_not_reported": s.unstable, "replay_divergences": s.diverged})).collect::<Vec<_>>(),
         "distinct_outcomes": all.iter().map(|(_, s)| s.distinct_outcomes).sum::<usize>(),
-        "rule": "stateless exploration of the real Node/Connection code on a single-threaded tokio runtime with a controller-owned clock, a scripted peer on loopback and gate hooks: at every decision point the enabled set = parked gates (rpc table steps, completed frame writes, route miss) + environment events (reply k, duplicated reply, reply to an unknown pid, reply to the caller's pid under another creation, timer k, peer close), two callers made runnable in the same tick, and per-caller cooperative-budget preemption (0..9 units left); all executions with at most `bound` non-default choices; states = complete executions; plus one (thorough: two) sequential history of 71 (301) calls in which the first call times out and its late reply is re-sent before the reply of every later call, and one history in which the peer stops reading under a 24 MiB request while a second caller with a 2 s timeout waits for the connection",
+        "rule": "stateless exploration of the real Node/Connection code on a single-threaded tokio runtime with a controller-owned clock, a scripted peer on loopback and gate hooks: at every decision point the enabled set = parked gates (rpc table steps, completed frame writes, route miss) + environment events (reply k, duplicated reply, reply to an unknown pid, reply to the caller's pid under another creation, timer k, peer close), two callers made runnable in the same tick, and per-caller cooperative-budget preemption (0..9 units left); all executions with at most `bound` non-default choices; states = complete executions; plus one (thorough: two) sequential history of 71 (301) calls in which the first call times out and its late reply is re-sent before the reply of every later call, and two histories (raw entry point and public wrapper) in which the peer stops reading under a 24 MiB request while a second caller with a 2 s timeout waits for the connection",
     })
 }
